@@ -67,6 +67,12 @@ int main(int argc, char **argv)
 	cap_begin(); rc = sm2_private_key_from_der(&k3, &cp, &l2); secret(d, 32); cap_end("sm2_private_key_from_der", 0, rc);
 	buf[len / 2] ^= 0x55; cp = buf; l2 = len;
 	cap_begin(); rc = sm2_private_key_from_der(&k3, &cp, &l2); secret(d, 32); cap_end("sm2_private_key_from_der_corrupt", 0, rc);
+	// an explicit print of session secrets to a stream the caller designates that is NOT fd 1 / fd 2: they go there and nowhere else
+	{ uint8_t pms[48], cr[32], sr[32], ms[48], kb[96]; for (int i = 0; i < 48; i++) { pms[i] = (uint8_t)(0x30 + i); ms[i] = (uint8_t)(0x90 + i); } for (int i = 0; i < 32; i++) { cr[i] = (uint8_t)i; sr[i] = (uint8_t)(0xE0 + i); }
+	  for (int i = 0; i < 96; i++) kb[i] = (uint8_t)(i * 7 + 5);
+	  FILE *sf = fopen("/tmp/leak_secrets.txt", "w");
+	  cap_begin(); rc = tls_secrets_print(sf, pms, 48, cr, sr, ms, kb, 96, 0, 0); secret(pms, 48); secret(ms, 48); secret(kb, 32); secret(kb + 64, 16); cap_end("tls_secrets_print_to_designated_file", 0, rc);
+	  fclose(sf); unlink("/tmp/leak_secrets.txt"); }
 	// sign / decrypt / ecdh
 	uint8_t dgst[32] = {7}; size_t siglen;
 	cap_begin(); rc = sm2_sign(&key, dgst, out, &siglen); secret(d, 32); cap_end("sm2_sign", 0, rc);
